@@ -167,9 +167,11 @@ class Contract:
         module.body[FUNC_INDEX].value = func  # type: ignore
 
         # collect definitions for contract external deps
+        # (in the order of the source: a definition can depend on an earlier one)
         deps: list[ast.stmt] = []
-        for dep in self.dependencies:
-            definition = self.context.get(dep)
+        for dep, definition in self.context.items():
+            if dep not in self.dependencies:
+                continue
             if not definition:
                 continue
             deps.append(definition)
